@@ -906,6 +906,11 @@ class MixedEdgeGraph:
         G : MixedEdgeGraph
             A copy of the graph with only the nodes.
         """
+        # ``nodes`` is traversed several times and used for membership tests: an iterator would be
+        # exhausted after the first pass and ``v in nodes`` is a substring test when ``nodes`` is a str
+        nodes = list(nodes)
+        node_set = set(nodes)
+
         # initialize list of empty internal graphs
         graph_classes = [self._internal_graph_nx_type(edge_type)() for edge_type in self.edge_types]
         graph = self.__class__(**self.graph).copy()
@@ -923,7 +928,7 @@ class MixedEdgeGraph:
 
                 # only add edges from the induced subgraph
                 for u, v in edges:
-                    if u in set(nodes) and v in nodes:
+                    if u in node_set and v in node_set:
                         _graph.add_edge(u, v)
         return graph
 
